@@ -1,6 +1,6 @@
 (* C15 — MinGenSet and MinSetCover return true optima whenever one exists.
    Only property theorems (closed by [exact]), their assumptions, non-vacuity examples.
-   Models: MiscEnc.v (encode_mgs, mgs_preprocess, mgs_loop, py_int, encode_msc); semantics: Lin.v [sat].
+   Models: MiscEnc.v (encode_mgs, mgs_preprocess, mgsm_loop, py_int, encode_msc); semantics: Lin.v [sat].
    Optimality is relative to the solver specification (DESIGN §4): the loop theorems take it as the
    premises [status k = MgOptimal -> feasible k], [status k = MgInfeasible -> ~ feasible k]. *)
 From Coq Require Import List NArith ZArith QArith Bool Arith Lia.
@@ -51,18 +51,18 @@ Print Assumptions C15_complement_removal_refuted.
    size from the lower bound up to k-1 was proven infeasible: k is the least feasible size >= lowerbound *)
 Theorem C15_loop_sound : forall (feasible : nat -> Prop) (status : nat -> mstatus),
   (forall k, status k = MgOptimal -> feasible k) -> (forall k, status k = MgInfeasible -> ~ feasible k) ->
-  forall lb n tried k, mgs_loop status lb n = (tried, Some k) ->
-  feasible k /\ In k (mgs_range lb n) /\ (lb <= k)%nat /\ forall k', (lb <= k' < k)%nat -> ~ feasible k'.
-Proof. exact mgs_loop_sound. Qed.
+  forall lb n tried k, mgsm_loop status lb n = (tried, Some k) ->
+  feasible k /\ In k (mgsm_range lb n) /\ (lb <= k)%nat /\ forall k', (lb <= k' < k)%nat -> ~ feasible k'.
+Proof. exact mgsm_loop_sound. Qed.
 Print Assumptions C15_loop_sound.
 
 (* unsolved: the whole range was proven infeasible, or the loop stopped at an inconclusive status *)
 Theorem C15_loop_unsolved : forall (feasible : nat -> Prop) (status : nat -> mstatus),
   (forall k, status k = MgInfeasible -> ~ feasible k) ->
-  forall lb n tried, mgs_loop status lb n = (tried, None) ->
-  (tried = mgs_range lb n /\ forall k, In k (mgs_range lb n) -> ~ feasible k) \/
+  forall lb n tried, mgsm_loop status lb n = (tried, None) ->
+  (tried = mgsm_range lb n /\ forall k, In k (mgsm_range lb n) -> ~ feasible k) \/
   (exists k, In k tried /\ status k = MgOther).
-Proof. exact mgs_loop_none. Qed.
+Proof. exact mgsm_loop_none. Qed.
 Print Assumptions C15_loop_unsolved.
 
 (* with conclusive statuses solve() succeeds whenever some size in lowerbound .. len(numbers)+1 is feasible.
@@ -72,34 +72,34 @@ Print Assumptions C15_loop_unsolved.
 Theorem C15_loop_complete_partial : forall (feasible : nat -> Prop) (status : nat -> mstatus),
   (forall k, status k = MgInfeasible -> ~ feasible k) ->
   forall lb n, (forall k, status k = MgOptimal \/ status k = MgInfeasible) ->
-  (exists k, In k (mgs_range lb n) /\ feasible k) -> exists tried k, mgs_loop status lb n = (tried, Some k).
-Proof. exact mgs_loop_complete. Qed.
+  (exists k, In k (mgsm_range lb n) /\ feasible k) -> exists tried k, mgsm_loop status lb n = (tried, Some k).
+Proof. exact mgsm_loop_complete. Qed.
 Print Assumptions C15_loop_complete_partial.
 Definition C15_loop_complete_full_statement : Prop := forall (I : mgs_inst) (n_initial : nat) (status : nat -> mstatus),
   (forall k, status k = MgOptimal <-> exists a, sat a (encode_mgs I k)) -> (forall k, status k <> MgOther) ->
   (length (mg_numbers I) <= n_initial)%nat -> (exists k a, (1 <= k)%nat /\ sat a (encode_mgs I k)) ->
-  exists tried k, mgs_loop status 1 n_initial = (tried, Some k).
+  exists tried k, mgsm_loop status 1 n_initial = (tried, Some k).
 
 (* FIXED FINDING (mgs_upper_end_exclusive, 2966290): the old range excluded sizes len(numbers) and len(numbers)+1 *)
 Theorem C15_loop_old_upper_end_refuted : exists numbers total,
   (exists g, length g = 2%nat /\ genset 1 numbers total g) /\
   (forall g, length g = 1%nat -> ~ genset 1 numbers total g) /\
-  In 2%nat (mgs_range 1 (length numbers)) /\ ~ In 2%nat (mgs_range_old 1 (length numbers)) /\
-  forall status, snd (mgs_loop_old status 1 (length numbers)) = None \/ snd (mgs_loop_old status 1 (length numbers)) = Some 1%nat.
-Proof. exact mgs_loop_old_upper_end_refuted. Qed.
+  In 2%nat (mgsm_range 1 (length numbers)) /\ ~ In 2%nat (mgsm_range_old 1 (length numbers)) /\
+  forall status, snd (mgsm_loop_old status 1 (length numbers)) = None \/ snd (mgsm_loop_old status 1 (length numbers)) = Some 1%nat.
+Proof. exact mgsm_loop_old_upper_end_refuted. Qed.
 Print Assumptions C15_loop_old_upper_end_refuted.
 Theorem C15_loop_old_upper_end_refuted2 : exists numbers total,
   (exists g, length g = 3%nat /\ genset 1 numbers total g) /\
-  ~ In 3%nat (mgs_range_old 1 (length numbers)) /\ In 3%nat (mgs_range 1 (length numbers)).
-Proof. exact mgs_loop_old_upper_end_refuted2. Qed.
+  ~ In 3%nat (mgsm_range_old 1 (length numbers)) /\ In 3%nat (mgsm_range 1 (length numbers)).
+Proof. exact mgsm_loop_old_upper_end_refuted2. Qed.
 Print Assumptions C15_loop_old_upper_end_refuted2.
 
 (* FIXED FINDING (mgs_skips_inconclusive, 03febc7): the old loop skipped an inconclusive run and reported a larger size
    as solved; the loop as it is now ends unsolved on the same status history *)
 Theorem C15_loop_old_skips_inconclusive_refuted : exists (status : nat -> mstatus) lb n tried k,
-  status 1%nat = MgOther /\ mgs_loop_old status lb n = (tried, Some k) /\ In 1%nat tried /\ (1 < k)%nat /\
-  mgs_loop status lb n = ([1%nat], None).
-Proof. exact mgs_loop_old_skips_inconclusive_refuted. Qed.
+  status 1%nat = MgOther /\ mgsm_loop_old status lb n = (tried, Some k) /\ In 1%nat tried /\ (1 < k)%nat /\
+  mgsm_loop status lb n = ([1%nat], None).
+Proof. exact mgsm_loop_old_skips_inconclusive_refuted. Qed.
 Print Assumptions C15_loop_old_skips_inconclusive_refuted.
 
 (* OPEN FINDING (mgs_int_truncation): int() of a value inside the integrality tolerance below 3 is 2 *)
@@ -136,7 +136,7 @@ Definition ex_mgs_a (v : var) : Q :=
   | [i; j] => if (i =? j)%N then (if (vfam v =? fX)%N then 1 else if (vfam v =? fPi)%N then (if (i =? 0)%N then 1 else 2) else 0) else 0
   | _ => 0
   end.
-Example C15_nonvacuous_genset : sat ex_mgs_a (encode_mgs ex_mgs 2) /\ mgs_loop (fun k => if (k =? 2)%nat then MgOptimal else MgInfeasible) 1 3 = ([1; 2]%nat, Some 2%nat) /\ mgs_range 1 3 = [1; 2; 3; 4]%nat.
+Example C15_nonvacuous_genset : sat ex_mgs_a (encode_mgs ex_mgs 2) /\ mgsm_loop (fun k => if (k =? 2)%nat then MgOptimal else MgInfeasible) 1 3 = ([1; 2]%nat, Some 2%nat) /\ mgsm_range 1 3 = [1; 2; 3; 4]%nat.
 Proof.
   split; [split|split; reflexivity].
   - apply Forall_dec_cols. vm_compute. reflexivity.
